@@ -349,9 +349,13 @@ func (s *transactionStore) Watch(ctx context.Context, ch chan<- configapi.Transa
 						close(ch)
 						return
 					}
-					ch <- configapi.TransactionEvent{
+					replayed := configapi.TransactionEvent{
 						Type:        configapi.TransactionEvent_REPLAYED,
 						Transaction: *transaction,
+					}
+					select {
+					case ch <- replayed:
+					case <-ctx.Done():
 					}
 				}
 			} else {
@@ -377,9 +381,13 @@ func (s *transactionStore) Watch(ctx context.Context, ch chan<- configapi.Transa
 					transaction := entry.Value
 					transaction.Index = configapi.Index(entry.Index)
 					transaction.Version = uint64(entry.Version)
-					ch <- configapi.TransactionEvent{
+					replayed := configapi.TransactionEvent{
 						Type:        configapi.TransactionEvent_REPLAYED,
 						Transaction: *transaction,
+					}
+					select {
+					case ch <- replayed:
+					case <-ctx.Done():
 					}
 				}
 			}
@@ -388,7 +396,10 @@ func (s *transactionStore) Watch(ctx context.Context, ch chan<- configapi.Transa
 		for {
 			select {
 			case event := <-eventCh:
-				ch <- event
+				select {
+				case ch <- event:
+				case <-ctx.Done():
+				}
 			case <-ctx.Done():
 				close(ch)
 				go func() {
